@@ -60,7 +60,11 @@ def user_bus(directives):
     from a816.cpu.mapping import Bus
 
     b = Bus()
-    for ident, lo, hi, mask, ram, mirror in directives:
+    for d in directives:
+        if d[0] == "unmap":
+            b.unmap(d[1])
+            continue
+        ident, lo, hi, mask, ram, mirror = d
         kw = {}
         if ram:
             kw["writeable"] = 1  # what `.map writable=1` passes (an int, never the bool False)
